@@ -8,7 +8,7 @@ type Tree = BTreeMap<String, Vec<u8>>;
 fn tree(r: &Path) -> Tree {
     fn walk(root: &Path, d: &Path, out: &mut Tree) {
         if let Ok(rd) = std::fs::read_dir(d) { for e in rd.flatten() { let p = e.path(); let rel = p.strip_prefix(root).map(|x| x.to_string_lossy().into_owned()).unwrap_or_default();
-            if rel.starts_with(".copia") { continue; }
+            if Path::new(&rel).starts_with(".copia") { continue; }      // the control DIRECTORY (component-wise), not every name with that prefix
             if p.is_dir() { walk(root, &p, out) } else if let Ok(b) = std::fs::read(&p) { out.insert(rel, b); } } }
     }
     let mut t = Tree::new(); walk(r, r, &mut t); t
